@@ -130,6 +130,17 @@ func (r Rng) mergeCandidates(w Win, h, v, spread int64, sp bool) []ID {
 		}
 		out = append(out, c)
 	}
+	if r.Chance(0.35) && !sp { // unrelated / overlapping voxels at any zoom within the spread
+		for k := r.In(1, 2); k > 0; k-- {
+			hh := r.In(maxI(0, h-2), h+spread+1)
+			vv := r.In(maxI(0, v-2), v+spread+1)
+			if r.Chance(0.5) {
+				out = append(out, r.relativeAt(base, hh, vv))
+			} else {
+				out = append(out, r.randomIDAt(w, hh, vv))
+			}
+		}
+	}
 	r.Shuffle(len(out), func(i, j int) { out[i], out[j] = out[j], out[i] })
 	if len(out) == 0 {
 		out = append(out, base)
